@@ -35,7 +35,7 @@ ASSUMPTIONS = [
 ]
 PROBES = ["remove_0d", "remove_with_interfaces", "remove_highest_dim", "remove_last_subdomain", "replace_by_copy", "replace_1d_refined", "replace_0d",
           "replace_mortar_sides", "add_several_at_once", "codim0_interface", "codim2_interface", "two_subdomains_same_dim", "only_0d_left_boundaries_raises",
-          "rejected_existing_grid", "rejected_existing_interface", "rejected_codim3", "meshed_start", "empty_start", "ge_5_subdomains", "replace_both_ends_in_one_call", "meshed_start_3d", "observation_sparse", "observation_end", "pair_list_reused_by_caller"]
+          "rejected_existing_grid", "rejected_existing_interface", "rejected_codim3", "meshed_start", "empty_start", "ge_5_subdomains", "replace_both_ends_in_one_call", "meshed_start_3d", "observation_sparse", "observation_end", "pair_list_reused_by_caller", "twin_instance_used_in_between"]
 
 
 def new_grid(dim: int):
@@ -182,6 +182,30 @@ def run_history_c24(ch, tr: Trace) -> None:
                 raise Violation("data_dictionary_kept", f"after {where}: data dictionary of {lab(g)} is a different object")
             if g not in mdg:
                 raise Violation("contains", f"after {where}: {lab(g)} not in mdg")
+        # the less travelled entry points must tell the same story
+        if subs:
+            dims = [g.dim for g in subs]
+            dmax = real_call("dim_max()", lambda: mdg.dim_max())
+            dmin = real_call("dim_min()", lambda: mdg.dim_min())
+            if dmax != max(dims) or dmin != min(dims):
+                raise Violation("subdomains_listed_once_sorted", f"after {where}: dim_max/dim_min = {dmax}/{dmin}, the subdomains present have dimensions {sorted(set(dims))}", "dim_min_max")
+            nc = real_call("num_subdomain_cells()", lambda: mdg.num_subdomain_cells())
+            if nc != sum(g.num_cells for g in subs):
+                raise Violation("counts", f"after {where}: num_subdomain_cells() = {nc}, the subdomains present have {sum(g.num_cells for g in subs)} cells", "num_cells")
+            shuffled = list(reversed(exp_s))
+            srt = real_call("sort_subdomains", lambda: mdg.sort_subdomains(shuffled))
+            if len(srt) != len(exp_s) or any(a is not b for a, b in zip(srt, exp_s)):
+                raise Violation("subdomains_listed_once_sorted", f"after {where}: sort_subdomains(reversed listing) = {[lab(g) for g in srt]}, expected {[lab(g) for g in exp_s]}", "sort_subdomains")
+            with_data = real_call("subdomains(return_data=True)", lambda: mdg.subdomains(return_data=True))
+            if len(with_data) != len(exp_s) or any(a[0] is not b or id(a[1]) != data_id[b] for a, b in zip(with_data, exp_s)):
+                raise Violation("subdomains_listed_once_sorted", f"after {where}: subdomains(return_data=True) does not pair every subdomain, in listing order, with its own data dictionary", "listing_with_data")
+        if pair:
+            srt_i = real_call("sort_interfaces", lambda: mdg.sort_interfaces(list(reversed(exp_i))))
+            if len(srt_i) != len(exp_i) or any(a is not b for a, b in zip(srt_i, exp_i)):
+                raise Violation("interfaces_listed_once_sorted", f"after {where}: sort_interfaces(reversed listing) = {[lab(g) for g in srt_i]}, expected {[lab(g) for g in exp_i]}", "sort_interfaces")
+            with_data_i = real_call("interfaces(return_data=True)", lambda: mdg.interfaces(return_data=True))
+            if len(with_data_i) != len(exp_i) or any(a[0] is not b or id(a[1]) != data_id[b] for a, b in zip(with_data_i, exp_i)):
+                raise Violation("interfaces_listed_once_sorted", f"after {where}: interfaces(return_data=True) does not pair every interface, in listing order, with its own data dictionary", "listing_with_data")
         # boundaries(): one per positive-dimensional subdomain, sorted; documented ValueError if only 0-d subdomains exist
         if subs and n_bg == 0:
             try:
@@ -419,7 +443,23 @@ def run_history_c24(ch, tr: Trace) -> None:
             return
         raise Violation("invalid_call_rejected", f"invalid call of kind {['existing_grid', 'existing_interface', 'codim3'][kind]} was accepted")
 
+    twin = [None]
+
+    def op_twin_noise():
+        """A second container used in between (containers must not share state through class-level attributes)."""
+        if twin[0] is None:
+            twin[0] = pp.MixedDimensionalGrid()
+        g_t = new_grid(ch.choice([1, 2, 0]))
+        twin[0].add_subdomains(g_t)
+        twin[0].subdomains()
+        if twin[0].num_subdomains() > 2 and ch.flag():
+            twin[0].remove_subdomain(twin[0].subdomains()[-1])
+        tr.probe("twin_instance_used_in_between")
+        tr.op("twin", "ok", g_t.dim, changing=False)
+        check("operations on another MixedDimensionalGrid")
+
     ops = [
+        Op("twin_noise", 1, op_twin_noise),
         Op("add_subdomains", 6, op_add, core=True),
         Op("add_interface", 5, op_add_interface, enabled=lambda: len(subs) >= 2, core=True),
         Op("remove_subdomain", 4, op_remove, enabled=lambda: bool(subs), core=True),
